@@ -225,3 +225,93 @@ func (r *c11run) drainStale() {
 		})
 	}
 }
+
+// lateOpens opens connection ids on a multiplexer that has failed or was closed already. Every
+// Read and Write on such a connection has to return promptly and to fail: it must not hang.
+// (Open returning an error instead is accepted and counted.) For an id that nobody ever wrote
+// to any data is a violation; an id that was open before may still be handed frames the
+// reader goroutine had taken off the trunk when the mux was closed (accepted, counted).
+func (r *c11run) lateOpens(when string) {
+	if r.hang != "" || r.fail != "" {
+		return
+	}
+	if r.lateIDs == nil {
+		r.lateIDs = newIDAllocator(r.ids)
+	}
+	for li, lo := range r.c.Late {
+		if lo.When != when || r.hang != "" {
+			continue
+		}
+		side := lo.Side & 1
+		reuse := lo.Reuse && lo.Conn >= 0 && lo.Conn < len(r.c.IDs)
+		var id uint32
+		if reuse {
+			id = r.ids[lo.Conn]
+		} else {
+			id = r.lateIDs.fresh()
+		}
+		what := fmt.Sprintf("late open %d (id=%d on mux %d by %q, %s)", li, id, side, lo.Method, when)
+		// the failure has reached this end once its canary connection is closed
+		if r.canary != 0 {
+			select {
+			case <-r.canaryDone[side]:
+			case <-time.After(hangAfter):
+				r.hangf("after the failure (%s) mux %d did not close its connections within %v (a Read on an idle connection is still blocked)", r.c.Failure.Kind, side, hangAfter)
+				return
+			}
+		}
+		r.timed(what, func() {
+			if reuse {
+				_ = r.p.conns[side][lo.Conn].Close() // leaves the table: the id is not open any more
+			}
+			var h net.Conn
+			var err error
+			switch lo.Method {
+			case "d":
+				h, err = r.p.m[side].Dialer(multiplex.ConnID(id))("", "")
+			case "l":
+				var l net.Listener
+				if l, err = r.p.m[side].Listen(multiplex.ConnID(id)); err == nil {
+					h, err = l.Accept()
+				}
+			default:
+				h, err = r.p.m[side].Open(multiplex.ConnID(id))
+			}
+			if err != nil || h == nil {
+				r.addClass("late_open_refused")
+				return
+			}
+			r.addClass("opened_after_failure:" + when)
+			if reuse {
+				r.addClass("late_open_of_formerly_open_id")
+			}
+			bp := getBuf()
+			defer putBuf(bp)
+			// reads: errors, possibly mixed with a few frames on a re-used id; never blocking
+			errs, frames := 0, 0
+			for k := 0; k < 100000 && errs < errsToStop; k++ {
+				n, err := h.Read(*bp)
+				if err != nil {
+					errs++
+					continue
+				}
+				errs = 0
+				frames++
+				if !reuse {
+					r.failf("%s: Read on a connection opened after the multiplexer had failed returned %d bytes although nobody ever wrote to this id", what, n)
+					return
+				}
+			}
+			if frames > 0 {
+				r.addClass("late_open_got_frames_still_in_flight")
+			}
+			if errs < errsToStop {
+				r.failf("%s: Read on a connection opened after the multiplexer had failed keeps returning data (%d frames)", what, frames)
+				return
+			}
+			if n, err := h.Write([]byte{0xEE}); err == nil {
+				r.failf("%s: Write on a connection opened after the multiplexer had failed succeeded (n=%d)", what, n)
+			}
+		})
+	}
+}
